@@ -19,7 +19,11 @@ Profile GetProfile(const std::string& name, bool thorough) {
   p.name = name;
   p.gen.max_stmts = thorough ? 24 : 10;
   p.gen.max_sources = thorough ? 8 : 5;
-  if (name == "C01" || name == "C02" || name == "C03" || name == "C04") {
+  if (name == "C03") {
+    // no kills or interrupts: what is recorded is exactly what completed
+    p.pm_cmd_fail = 40; p.pm_editor = 0; p.w_manifest_edit = 1; p.pm_tty = 100; p.w_inflate_log = 0;
+    p.gen.features &= ~F_REGEN;
+  } else if (name == "C01" || name == "C02" || name == "C04") {
     p.pm_cmd_fail = 40; p.pm_interrupt = 60; p.pm_crash = 40; p.pm_editor = 80;
     p.w_manifest_edit = 1; p.pm_tty = 150;
   } else if (name == "C05") {
